@@ -297,6 +297,35 @@ def t_par_send(src):
     return tr.reach_if(found[0].a, re.compile(r"^self\.send\("), {}), R.norm(fake[found[0].lo:found[0].hi])
 
 
+BIN_CTORS = {"BinaryDetection::Quit": ("BQuit", "N", "bin_mode"), "BinaryDetection::Convert": ("BConvert", "N", "bin_mode"),
+             "BinaryDetection::None": ("BNone", None, "bin_mode")}
+
+
+def t_detect_binary(src):
+    """the RETURN VALUE of Core::detect_binary as a function of what it reads; the update of binary_byte_offset is
+    skipped (no effect on the value), `self.binary_data(..)?` stands for its Ok value"""
+    def m_find_byte(recv, args):
+        if recv[1] != "haystack" or len(args) != 1 or args[0][1] != "N":
+            raise TranslateError(".find_byte on %s" % recv[1])
+        return "(%s %s)" % (recv[0], args[0][0]), "option nat"
+
+    def m_binary_data(recv, args):
+        if recv[1] != "core" or len(args) != 1 or args[0][1] != "nat":
+            raise TranslateError(".binary_data on %s" % recv[1])
+        return "(binary_data %s)" % args[0][0], "bool"
+
+    sp = spec(ctors=BIN_CTORS, calls={"Ok": ident1}, try_transparent=True,
+              ignorable=R.IGNORABLE_DEFAULT + [r"^self\.binary_byte_offset=Some\(offset\)$"],
+              methods={"find_byte": m_find_byte, "binary_data": m_binary_data},
+              atoms={"self.binary_byte_offset.is_some()": ("offset_is_some", "bool"),
+                     "self.config.binary.quit_byte().is_some()": ("quit_byte_is_some", "bool"),
+                     "self.config.binary.0": ("mode", "bin_mode"), "buf[*range]": ("find_byte", "haystack"),
+                     "range.start()": ("range_start", "nat"), "self": ("tt", "core")})
+    toks = R.tokenize(src)
+    lo, hi = find_impl_with_fn(toks, "Core", "detect_binary")
+    return body_in(toks, lo, hi, "detect_binary", sp, "bool")
+
+
 TARGETS = [
     # name, params, type, file, translator, enums
     ("is_line_by_line_fast", "(passthru stop_on_nonmatch has_matched : bool) (matcher_line_term : option lineterm) "
@@ -311,6 +340,9 @@ TARGETS = [
      "crates/searcher/src/searcher/mod.rs", t_slice_needs_transcoding, []),
     ("should_binary_quit", "(binary_offset_is_some quit_byte_is_some : bool)", "bool",
      "crates/searcher/src/searcher/glue.rs", t_should_binary_quit, []),
+    ("detect_binary_result", "(offset_is_some quit_byte_is_some : bool) (mode : bin_mode) (range_start : nat) "
+     "(find_byte : byte -> option nat) (binary_data : nat -> bool)", "bool", "crates/searcher/src/searcher/core.rs",
+     t_detect_binary, []),
     ("requires_path", "(k : skind)", "bool", "crates/printer/src/summary.rs", kind_fn("requires_path"), ["SummaryKind"]),
     ("requires_stats", "(k : skind)", "bool", "crates/printer/src/summary.rs", kind_fn("requires_stats"),
      ["SummaryKind"]),
@@ -363,7 +395,7 @@ def generate(repo, root):
            "   One definition per pure decision function of the library crates; `translated` says whether the body",
            "   below is the translation of the current source text (true) or the hand-written fallback of",
            "   Model/LibExpected.v (false). *)",
-           "From RG Require Import Base.Bytes Base.LineTerm Model.Summary Model.LibExpected.",
+           "From RG Require Import Base.Bytes Base.LineTerm Model.Summary Model.LineBufferBin Model.LibExpected.",
            "Local Open Scope bool_scope.", ""]
     for name, params, ty, rel, fn, enums in TARGETS:
         ok, msg, text = True, "", ""
